@@ -1494,7 +1494,7 @@ func (v *FnVC) loopHead(l *Loop, pre *State, reach *Term) *State {
 		if _, ok := pre.vars[k]; !ok {
 			continue // declared inside the loop: initialised before use
 		}
-		nv := v.fresh(k+"@"+ln, sortOf(typ))
+		nv := v.freshVal(k+"@"+ln, sortOf(typ))
 		h.vars[k] = nv
 	}
 	if tg.alloc {
